@@ -36,6 +36,11 @@ pub struct Exec {
     /// Everything ever appended: (queue, position, payload) — for C08.
     pub appended: Vec<(String, u64, Bytes)>,
     pub keep_appended: bool,
+    /// Observed state of the REAL log after each op (model-free snapshots), when enabled.
+    pub live: Vec<State>,
+    pub keep_live: bool,
+    /// Records appended according to the REAL outcomes: (queue, position, payload, op index).
+    pub really_appended: Vec<(String, u64, Bytes, usize)>,
 }
 
 impl Exec {
@@ -55,6 +60,9 @@ impl Exec {
             keep_snapshots: false,
             appended: Vec::new(),
             keep_appended: false,
+            live: Vec::new(),
+            keep_live: false,
+            really_appended: Vec::new(),
         })
     }
 
@@ -70,6 +78,9 @@ impl Exec {
             keep_snapshots: false,
             appended: Vec::new(),
             keep_appended: false,
+            live: Vec::new(),
+            keep_live: false,
+            really_appended: Vec::new(),
         }
     }
 
@@ -113,9 +124,31 @@ impl Exec {
                 }
             }
         }
+        if let (COp::Append { q, .. }, Outcome::Appended { last: Some(last) }) = (&cop, &real.outcome) {
+            // what the implementation says it appended (model-free)
+            if *last + 1 >= payloads.len() as u64 {
+                let first = last + 1 - payloads.len() as u64;
+                let name = q.text();
+                for (offset, bytes) in payloads.iter().enumerate() {
+                    self.really_appended
+                        .push((name.clone(), first + offset as u64, bytes.clone(), idx));
+                }
+            }
+        }
         self.cops.push(cop.clone());
         if self.keep_snapshots {
             self.snapshots.push(self.model.state());
+        }
+        if self.keep_live {
+            match self.driver.observe() {
+                Ok(state) => self.live.push(state),
+                Err(msg) => {
+                    return Err(CaseError::Skip(format!(
+                        "live-state-unobservable:{}",
+                        msg.chars().take(40).collect::<String>()
+                    )))
+                }
+            }
         }
         Ok(Step {
             idx,
@@ -140,6 +173,32 @@ impl Exec {
             ops: self.cops.clone(),
             extra,
         }))
+    }
+
+    /// For properties that do not own API conformance (that is C05): a call that fails (panic, I/O error) or whose
+    /// outcome differs from the reference model makes the case undecidable for them — skipped, never a violation.
+    pub fn conform_or_skip(&self, step: &Step) -> Result<(), CaseError> {
+        if step.real.outcome != step.expected {
+            let reason = match &step.real.outcome {
+                Outcome::Panic(_) => "setup-call-panicked",
+                Outcome::IoError(_) => "setup-call-io-error",
+                Outcome::OpenFailed(_) => "setup-open-failed",
+                _ => "setup-diverges-from-model",
+            };
+            return Err(CaseError::Skip(reason.to_string()));
+        }
+        Ok(())
+    }
+
+    /// Only fatal call failures (panic, I/O error, failed open) make the case undecidable; the outcome itself is not
+    /// compared with the model.
+    pub fn usable_or_skip(&self, step: &Step) -> Result<(), CaseError> {
+        match &step.real.outcome {
+            Outcome::Panic(_) => Err(CaseError::Skip("setup-call-panicked".to_string())),
+            Outcome::IoError(_) => Err(CaseError::Skip("setup-call-io-error".to_string())),
+            Outcome::OpenFailed(_) => Err(CaseError::Skip("setup-open-failed".to_string())),
+            _ => Ok(()),
+        }
     }
 
     /// Outcome of the real call must equal the model's.
